@@ -63,6 +63,10 @@ def gen_tu(c, t):
             tu.add(w, '%s& out, const %s& a, const %s& s' % (A, A, E), 'out = a %s s;' % o, kind=kind, op=nm)
         elif kind == 'scassign':
             tu.add(w, '%s& a, const %s& s' % (A, E), 'a %s= s;' % o, kind=kind, op=nm)
+            # the scalar operand is one of the aggregate's own components: every slot is combined with its value at the call
+            for k_ in sorted(set((0, n - 2))):
+                memb = ('a[%d][%d]' % (k_ // MATDIM[c], k_ % MATDIM[c])) if c in MATDIM else 'a.' + AGG[c][2][k_]
+                tu.add(w + '_self%d' % k_, '%s& a' % A, 'a %s= %s;' % (o, memb), kind='scassign_self', op=nm, slot=k_)
         elif kind == 'lsc':
             tu.add(w, '%s& out, const %s& s, const %s& a' % (A, E, A), 'out = s %s a;' % o, kind=kind, op=nm)
         elif kind == 'neg':
@@ -188,14 +192,14 @@ def check_tu(rep, an, tu, c, t):
         oid = '%s::%s' % (pre, name[2:])
         S = an.get(name)
         if S is None:
-            rep.ob(oid, 'R04.' + ('cw' if kind in ('bin', 'binassign', 'sc', 'scassign', 'lsc', 'lscmix', 'neg', 'negate') else 'eq' if kind == 'eq' else 'map'),
+            rep.ob(oid, 'R04.' + ('cw' if kind in ('bin', 'binassign', 'sc', 'scassign', 'scassign_self', 'lsc', 'lscmix', 'neg', 'negate') else 'eq' if kind == 'eq' else 'map'),
                    UNDECIDED, an.err.get(name, 'not analysed'))
             continue
         where = fn_where(S.fn)
         if any(e.kind != 'ret' for e in S.exits):
             rep.ob(oid, 'R04.cw', VIOLATED, 'component-wise operation has a non-returning exit (%s)' % [e.kind for e in S.exits], where)
             continue
-        if kind in ('bin', 'binassign', 'sc', 'scassign', 'lsc', 'lscmix', 'neg', 'negate'):
+        if kind in ('bin', 'binassign', 'sc', 'scassign', 'scassign_self', 'lsc', 'lscmix', 'neg', 'negate'):
             op = m['op']
             r = ref_out('ref_' + op)
             if r is None:
@@ -208,12 +212,16 @@ def check_tu(rep, an, tu, c, t):
                 elif kind == 'binassign': mp = {s_in('a1'): a_in('a0', i), s_in('a2'): a_in('a1', i)}
                 elif kind == 'sc': mp = {s_in('a1'): a_in('a1', i), s_in('a2'): s_in('a2')}
                 elif kind == 'scassign': mp = {s_in('a1'): a_in('a0', i), s_in('a2'): s_in('a1')}
+                elif kind == 'scassign_self': mp = {s_in('a1'): a_in('a0', i), s_in('a2'): a_in('a0', m['slot'])}
                 elif kind == 'lsc': mp = {s_in('a1'): s_in('a1'), s_in('a2'): a_in('a2', i)}
                 elif kind == 'lscmix': mp = {s_in('a2'): a_in('a2', i)}
                 elif kind == 'neg': mp = {s_in('a1'): a_in('a1', i)}
                 elif kind == 'negate': mp = {s_in('a1'): a_in('a0', i)}
                 exp = inst(r, mp)
                 if got[i] is not exp:
+                    # integer x / x: the compiler folds it to 1 (x = 0 is undefined behaviour): equal wherever defined
+                    if kind == 'scassign_self' and i == m['slot'] and op == 'div' and not lt.startswith(('f', 'd', 'h')) and got[i].op == 'const' and got[i].attr[1] == 1:
+                        continue
                     bad.append((i, exp, got[i]))
             if not written_exact(S, outbase, n, t):
                 bad.append((-1, None, None))
